@@ -1,7 +1,6 @@
 package exec
 
 import (
-	"sync/atomic"
 	"bytes"
 	"context"
 	"fmt"
@@ -11,6 +10,7 @@ import (
 	"sort"
 	"strings"
 	"sync"
+	"sync/atomic"
 	"time"
 
 	"verif/govc/term"
